@@ -8,7 +8,7 @@ for f in sorted(glob.glob('/verif/refactors/*/meta.json')):
     rows.append(f"| {m['name']} | {res} | {m.get('suite','')[:40]} | {m.get('applies_to','current /repo HEAD when evaluated')[:60]} |")
 intro = """### Correct variants (must stay silent)
 
-Twenty-one behaviour-preserving refactorings, each written by a sub-agent that saw only the property texts and a scratch worktree (40-280 changed lines). First round: tasklane with a lane struct and flat selects, ProgressWriter with an atomic total, the filter with compacting list and computed masks, the JSON handler with head/tail and a line sink, Text/Nano handlers with a pooled encoder, httpd with typed trie children and store cells, Relay as a span type, CopyFile as a copyPair, daemon with NotifyContext and a registry. Second round (names ending in 2, after the append/copy instrumentation and the blocked-push oracle were added): the filter as an immutable snapshot behind an atomic.Pointer with lock-free lookups, tasklane without forwarding goroutines (one buffered channel per lane plus a token channel, workers scan all lanes under a mutex), ProgressWriter with an atomic total and a mutex-ordered notifier, the Nano handler with an encoder struct and size-classed buffer pools, httpd with typed trie nodes and a single Store.reset, CopyFile as a step list. Third round (names ending in 3, asked to use newer standard-library entry points): tasklane with per-lane structs, atomic flags and timers, Text/JSON handlers with immutable derivation and a shared output type, the filter on net/netip prefixes with a population bitmask, CopyFile with an O_EXCL fast path, ReadFrom and reported close errors (the simulated os.File had to learn ReadFrom/WriteTo for it: the first run was exit 2), ProgressWriter with a mutex-guarded total and a feed type, Relay as a per-call value with status recording centralised. Patches and notes are under `refactors/`. Every registered quick check was run against each: all exit 0, none exits 2 (the rewriter handled every construct they introduced).
+Twenty-two correct variants: twenty-one behaviour-preserving refactorings, each written by a sub-agent that saw only the property texts and a scratch worktree (40-280 changed lines), and one small one of my own (osutil4: MoveFile returns the error of os.Rename when the destination is a directory - written to confirm and then rule out a false alarm of the simulated Rename, section 14). First round: tasklane with a lane struct and flat selects, ProgressWriter with an atomic total, the filter with compacting list and computed masks, the JSON handler with head/tail and a line sink, Text/Nano handlers with a pooled encoder, httpd with typed trie children and store cells, Relay as a span type, CopyFile as a copyPair, daemon with NotifyContext and a registry. Second round (names ending in 2, after the append/copy instrumentation and the blocked-push oracle were added): the filter as an immutable snapshot behind an atomic.Pointer with lock-free lookups, tasklane without forwarding goroutines (one buffered channel per lane plus a token channel, workers scan all lanes under a mutex), ProgressWriter with an atomic total and a mutex-ordered notifier, the Nano handler with an encoder struct and size-classed buffer pools, httpd with typed trie nodes and a single Store.reset, CopyFile as a step list. Third round (names ending in 3, asked to use newer standard-library entry points): tasklane with per-lane structs, atomic flags and timers, Text/JSON handlers with immutable derivation and a shared output type, the filter on net/netip prefixes with a population bitmask, CopyFile with an O_EXCL fast path, ReadFrom and reported close errors (the simulated os.File had to learn ReadFrom/WriteTo for it: the first run was exit 2), ProgressWriter with a mutex-guarded total and a feed type, Relay as a per-call value with status recording centralised. Patches and notes are under `refactors/`. Every registered quick check was run against each: all exit 0, none exits 2 (the rewriter handled every construct they introduced).
 
 | refactoring | checks | suite | patch applies to |
 |---|---|---|---|
